@@ -570,7 +570,10 @@ func (r *runningStep) Close() error {
 	r.cancel()
 	r.wg.Wait()
 	r.logger.Debugf("Closing inputData channel in foreach step provider")
+	// ProvideStageInput sends on this channel while holding the lock, after checking the closed flag.
+	r.lock.Lock()
 	close(r.executeInput)
+	r.lock.Unlock()
 	return nil
 }
 
